@@ -113,22 +113,32 @@ def make_case(tier, seed, index):
                                                         [0.001, 0.0007])}
         case["a"]["frag"] = rnd.choice([2, 3, 5])
         case["b"]["frag"] = rnd.choice([2, 3, 5])
+    if index % 6 == 4:
+        # both objects are used in one event loop and then again in a later one (a second asyncio.run), some with a
+        # kept-alive socket/connection from the first
+        case["loops2"] = True
+        case["a"]["keep_alive"] = rnd.random() < 0.7
+        case["b"]["keep_alive"] = rnd.random() < 0.7
     return case
 
 
 def simplify(case):
     out = []
+    if case.get("loops2"):
+        c = {k: (dict(v) if isinstance(v, dict) else v) for k, v in case.items()}
+        c.pop("loops2")
+        out.append(c)
     for side in ("a", "b"):
         if case[side].get("frag"):
-            c = {"a": dict(case["a"]), "b": dict(case["b"])}
+            c = {k: (dict(v) if isinstance(v, dict) else v) for k, v in case.items()}
             c[side]["frag"] = None
             out.append(c)
         if case[side]["start"]:
-            c = {"a": dict(case["a"]), "b": dict(case["b"])}
+            c = {k: (dict(v) if isinstance(v, dict) else v) for k, v in case.items()}
             c[side]["start"] = 0.0
             out.append(c)
         if case[side]["garbage_eco"]:
-            c = {"a": dict(case["a"]), "b": dict(case["b"])}
+            c = {k: (dict(v) if isinstance(v, dict) else v) for k, v in case.items()}
             c[side]["garbage_eco"] = False
             out.append(c)
     return out
@@ -154,6 +164,17 @@ def _apply_common(dev, inv, spec):
     for attr in dir(type(inv)):
         pass
     return dev
+
+
+def _is_read(data, kind):
+    """Only answers to READ requests are delivered in pieces: the library does not reassemble write confirmations (a
+    cut one is an invalid answer and costs a retry), so with them the result would depend on whether the tail of the
+    first answer or the answer to the retransmission arrives first - a tie that solo and interleaved runs break
+    differently (their clocks differ in the last bit after a loop change)."""
+    if data[:2] == b"\xaa\x55":
+        return True
+    fc = data[7] if kind == "tcp" and len(data) > 7 else (data[1] if len(data) > 1 else 0)
+    return fc == 3
 
 
 def _set_clock(dev, spec, reg):
@@ -272,6 +293,8 @@ def execute(arg):
     for side in ("a", "b"):
         if side in which:
             dev, inv, tr, eco = _build(goodwe, case[side], hosts[side])
+            if case[side].get("keep_alive"):
+                inv.set_keep_alive(True)
             world.net.add_device(hosts[side], C.port_of(tr), dev)
             sides[side] = {"dev": dev, "inv": inv, "tr": tr, "results": [], "values": [], "eco": eco}
     lat = {hosts[s]: case[s]["lat"] for s in sides}
@@ -289,7 +312,7 @@ def execute(arg):
         d = lat.get(host, 0.001)
         if exc_next.pop(host, None):
             world.net.default_fault = {"k": "exc", "code": 6, "d": d}
-        elif frag.get(host) and nsent[host] % 2 == 0:
+        elif frag.get(host) and nsent[host] % 2 == 0 and _is_read(data, trp.kind):
             # this peer's answers arrive in two pieces (every other one), far enough apart for the other object's
             # traffic to fall in between
             world.net.default_fault = {"k": "frag", "s": 9, "d1": d, "d2": d * frag[host]}
@@ -299,18 +322,23 @@ def execute(arg):
 
     world.net.client_send = client_send
 
-    async def run_side(side):
+    async def run_side(side, part=None):
         st = sides[side]
         inv = st["inv"]
         spec = case[side]
         if spec["start"]:
             await asyncio.sleep(spec["start"])
-        try:
-            await inv.read_device_info()
-            st["info"] = "ok"
-        except Exception as e:  # noqa - the outcome is compared solo vs interleaved like every other result
-            st["info"] = "exc:" + type(e).__name__ + ":" + str(e)[:60]
-        for op in spec["ops"]:
+        ops = spec["ops"]
+        if part is not None:
+            mid = len(ops) // 2
+            ops = ops[:mid] if part == 0 else ops[mid:]
+        if part in (None, 0):
+            try:
+                await inv.read_device_info()
+                st["info"] = "ok"
+            except Exception as e:  # noqa - the outcome is compared solo vs interleaved like every other result
+                st["info"] = "exc:" + type(e).__name__ + ":" + str(e)[:60]
+        for op in ops:
             c = op["c"]
             try:
                 if c == "runtime":
@@ -356,13 +384,18 @@ def execute(arg):
                 st["results"].append(("exc", type(e).__name__ + ":" + str(e)[:80]))
                 st["values"].append(None)
 
-    async def main():
-        tasks = [asyncio.ensure_future(run_side(s)) for s in sorted(sides)]
+    async def main(part=None):
+        tasks = [asyncio.ensure_future(run_side(s, part)) for s in sorted(sides)]
         for t, s in zip(tasks, sorted(sides)):
             t.set_name("side-" + s)
         await asyncio.gather(*tasks)
 
-    status, _ = C.run_world(world, main())
+    if case.get("loops2"):
+        status, _ = C.run_world(world, main(0))
+        if status == "ok":
+            status, _ = C.run_world(world, main(1))
+    else:
+        status, _ = C.run_world(world, main())
     out = {"status": status, "digest": world.digest(), "steps": world.steps, "simtime": world.clock.now,
            "wall_hits": runner._WALL["hits"],
            "counters": dict(world.net.counters), "events": len(world.events)}
